@@ -23,9 +23,6 @@ def main():
     shutil.rmtree(stage, ignore_errors=True)
     os.makedirs(stage)
     os.makedirs(GEN, exist_ok=True)
-    # the tables are never patched in place: delete, then regenerate
-    for f in glob.glob(os.path.join(GEN, "*.lean")):
-        os.unlink(f)
     gi = os.path.join(GEN, ".gitignore")
     if not os.path.exists(gi):
         open(gi, "w").write("*.lean\n")
@@ -48,7 +45,11 @@ def main():
     if pg.returncode != 0:
         print("TRANSLATOR-FAILED c19_go")
         return 3
-    # move only complete tables into the lake workspace
+    # the tables are never patched in place: only after BOTH translators succeeded are the old tables
+    # deleted and the complete new ones moved into the lake workspace (a failed translator leaves the
+    # previous tables in place instead of a workspace that does not build)
+    for f in glob.glob(os.path.join(GEN, "*.lean")):
+        os.unlink(f)
     for f in sorted(glob.glob(os.path.join(stage, "*.lean"))):
         shutil.move(f, os.path.join(GEN, os.path.basename(f)))
     print("c19 tables regenerated from %s in %.1fs -> %s" % (repo, time.time() - t0, GEN))
